@@ -655,7 +655,7 @@ def targeted(kinds, roots, call_bias=False):
 
 
 SUBS = [
-    Sub("injected", check, strategy=strategy, nontrivial=nontrivial, classes=classes, n_quick=400, n_thorough=3000, sample_ok=lambda c: len(json.dumps(c)) < 2500),
+    Sub("injected", check, fuzz_runs=800, strategy=strategy, nontrivial=nontrivial, classes=classes, n_quick=400, n_thorough=3000, sample_ok=lambda c: len(json.dumps(c)) < 2500),
     Sub("cfg-injections", check, strategy=targeted(["outside-cfg-wire", "exit-row-mismatch", "non-dataflow-wire-across-blocks", "root-as-wire"], ("cfg", "dfg", "function")), nontrivial=nontrivial, classes=classes, n_quick=150, n_thorough=800,
         sample_ok=lambda c: len(json.dumps(c)) < 2500),
     Sub("cond-injections", check, strategy=targeted(["case-outputs-disagree", "case-index-out-of-range", "case-built-twice", "cond-exit-unbuilt"], ("cond", "dfg", "function")), nontrivial=nontrivial,
